@@ -411,7 +411,7 @@ func separator(prev, next string, layout int, r *Rand) string {
 		}
 		return " "
 	}
-	ws := []string{" ", " ", " ", "  ", "\t", "\n", "\r\n", " \n  ", "\n\n"}
+	ws := []string{" ", " ", " ", "  ", "\t", "\n", "\r\n", " \n  ", "\n\n", "\r", " \r"} // a lone CR is white space, not a line break
 	s := ws[r.Intn(len(ws))]
 	for r.Chance(1, 4) {
 		b := commentBodies[r.Intn(len(commentBodies))]
